@@ -1,4 +1,7 @@
 #!/bin/bash
-# the repository's own test suite with the verif guard OFF (no -tags verif), offline
-export GOFLAGS=-mod=mod GOPROXY=off GOSUMDB=off
+# the repository's own test suite with the verif guard OFF (no -tags verif), offline.
+# GOSUMDB / GOTOOLCHAIN are deliberately left alone: go.mod asks for go1.24.2 and the toolchain switch
+# (served from the module cache) refuses to run with GOSUMDB=off.
+unset GOSUMDB GOTOOLCHAIN
+export GOFLAGS=-mod=mod GOPROXY=off
 cd /repo && go test -json -vet=off -count=1 -timeout 25m ./...
